@@ -46,6 +46,20 @@ template<class G, class L> static void config(const char* name, const G& g, cons
   std::string cn = name;
   // (1) every route agrees with GenDirect (they are the same geodesic)
   for (auto& x : o) agree("route-" + cn, c, x, P, U, tol);
+  // (1b) what a line says about its first point: the latitude, longitude and azimuth it was given (longitude as given, not reduced)
+  if (level >= 1) {
+    auto getters = [&](const char* how, const L& l) {
+      if (!(bits(l.Longitude()) == bits(c.lon1) && l.Latitude() == Math::LatFix(c.lat1) && l.Azimuth() == Math::AngNormalize(c.azi1)))
+        bad("line-first-point-" + cn, std::string(how) + ": Latitude/Longitude/Azimuth() = " + std::to_string(l.Latitude()) + ", " + std::to_string(l.Longitude()) + ", " + std::to_string(l.Azimuth()) +
+            " for a line through (" + std::to_string(c.lat1) + ", " + std::to_string(c.lon1) + ") with azimuth " + std::to_string(c.azi1)); };
+    getters("Line", g.Line(c.lat1, c.lon1, c.azi1)); getters("constructor", L(g, c.lat1, c.lon1, c.azi1)); getters("GenDirectLine", g.GenDirectLine(c.lat1, c.lon1, c.azi1, c.arc, c.len));
+    if (c.arc) getters("ArcDirectLine", g.ArcDirectLine(c.lat1, c.lon1, c.azi1, c.len)); else getters("DirectLine", g.DirectLine(c.lat1, c.lon1, c.azi1, c.len));
+    // SetDistance / SetArc on an existing line: the third point is the end point
+    L l = g.Line(c.lat1, c.lon1, c.azi1); l.GenSetDistance(c.arc, c.len); Res q = nanres(); q.a12 = l.Arc(); q.s12 = l.Distance();
+    agree("route-" + cn, c, Out{"Line.GenSetDistance.(Arc,Distance)", hS | hA, q}, P, U, tol);
+    l.GenSetDistance(!c.arc, c.arc ? P.s12 : P.a12); q.a12 = l.Arc(); q.s12 = l.Distance();
+    agree("distance-arc-pair-" + cn, c, Out{"Line.GenSetDistance(the other member of the pair).(Arc,Distance)", hS | hA, q}, P, U, 2 * tol);
+  }
   // (2) the distance / arc-length pair: the same end point addressed the other way
   { Res r = nanres(); double other = c.arc ? P.s12 : P.a12;
     r.a12 = g.GenDirect(c.lat1, c.lon1, c.azi1, !c.arc, other, G::ALL | G::LONG_UNROLL, r.lat2, r.lon2, r.azi2, r.s12, r.m12, r.M12, r.M21, r.S12);
@@ -181,8 +195,8 @@ void gv::generate(const std::string& tier, uint64_t seed) {
     if (std::fabs(lat1) == 90) stratum("direct-pole-start");
     if (i < 3) sample(current_op());
     // the same case through the Lean models: the series solver (constants, LineInit, GenPosition) and the exact line
-    if (std::fabs(f) <= 0.2) gline::model_case(r, a, f, lat1, lon1, azi1, arc, len, i % 16 == 0);
-    xline::model_case(r, a, f, lat1, lon1, azi1, arc, len);
+    if (f >= -3 && f <= 0.75) gline::model_case(r, a, f, lat1, lon1, azi1, arc, len, i % 16 == 0);
+    xline::model_case(r, a, f, lat1, lon1, azi1, arc, len, i % 16 == 0);
     if (i % 4 == 1 && f < 0.99) gtool::tool_case(r, a, f, lat1, lon1, azi1, arc, len);   // the command-line front end on the same case
     if (i % 4 == 0) { double x = r.range(-4, 4); int nn = r.irange(0, 9); Args sa = {r.coin() ? "1" : "0", hx(std::sin(x)), hx(std::cos(x))}; for (int j = 0; j < nn; ++j) sa.push_back(hx(r.range(-1, 1) * std::pow(10.0, -j))); run("sincosseries", sa); }
     if (i % 2 == 0) {   // E(Einv(x)) = x over k2 in (-inf, 1), incl. the values met for b/a = 0.01 (k2 -> -9999) and 100 (k2 -> 0.9999)
